@@ -11,3 +11,12 @@ open MdVerif.CodeX
 #print axioms C03X_span_attr_list_boundary
 #print axioms C03X_block_after_paragraph
 #print axioms C03X_block_after_paragraph_inert
+#print axioms C03X_abbr_keeps_code
+#print axioms C03X_attr_list_keeps_code
+#print axioms C03X_toc_keeps_code
+#print axioms C03X_unescape_keeps_code
+#print axioms C03X_late_stages_keep_code
+#print axioms C03X_inline_skips_atomic
+#print axioms C03X_stash_skips_atomic
+#print axioms C03X_block_after_abbr_definition
+#print axioms C03X_abbr_wraps_outside_code_only
